@@ -262,6 +262,30 @@ def check(ctx, rep):
         any(f.text == "g.filetype != b'A'" and f.pol for f in fl.facts(n)) or not fl.facts(n) for n in rb)
     rep.ob('saveload.load-rebuilds', 'rebuild_line_dict after binary/protected load', ok, '', ctx.where(load))
 
+    # ASCII load: read_line returns (text, terminator); the terminator is None only at end of file, so an
+    # empty text with a terminator is a blank line (or the tail of a 255-character line), not the end
+    mg = ctx.fn(PROGRAM + ':Program.merge')
+    flm = ctx.flow(mg)
+    rl = [a for a in own_nodes(mg) if isinstance(a, ast.Assign) and isinstance(a.value, ast.Call) and norm(a.value.func).endswith('.read_line')
+          and isinstance(a.targets[0], ast.Tuple) and len(a.targets[0].elts) == 2]
+    brk = [b for b in own_nodes(mg) if isinstance(b, ast.Break)]
+    ok = len(rl) == 1 and len(brk) == 1
+    detail = ''
+    if ok:
+        text, term = [norm(e) for e in rl[0].targets[0].elts]
+        facts = [(f.text, f.pol) for f in flm.facts(brk[0])]
+        atoms = set()
+        for t, pol in facts:
+            if pol and ' and ' in t:
+                atoms |= set(x.strip() for x in t.split(' and '))
+            elif pol:
+                atoms.add(t)
+            elif t in (text, term):
+                atoms.add('not ' + t)
+        ok = ('not ' + text) in atoms and (('not ' + term) in atoms or (term + ' is None') in atoms)
+        detail = 'the loop ends under %s: a blank line ends LOAD/MERGE and the rest of the file is dropped' % sorted(atoms)
+    rep.ob('ascii.eof-needs-no-terminator', 'Program.merge stops only when read_line returns neither text nor a line terminator', ok, detail, ctx.where(mg))
+
     # converter goes through LOAD and SAVE of a session
     conv = ctx.fn('pcbasic/main.py:_convert')
     execs = [n for n in own_nodes(conv) if isinstance(n, ast.Call) and norm(n.func) == 'session.execute']
@@ -284,6 +308,8 @@ def variants(ctx):
         return t
 
     return [
+        V('merge-ends-at-blank-line', 'break', PROGRAM,
+          in_fn('Program.merge', lambda fn: mu.replace_expr(fn, mu.text_is('not line and (not cr)'), 'not line')), expect='ascii.eof'),
         V('unprotect-swap-sub-add', 'break', PROTECT,
           in_fn('unprotect', lambda fn: mu.replace_stmt(fn, mu.text_is('c -= 11 - index % 11'), 'c -= 13 - index % 13')),
           expect='cipher.inverse'),
